@@ -46,6 +46,7 @@ TAGS = {
     33: 'add_admid changes other columns / rows / order / dtypes, or its ADMID column is not get_admid',
     34: 'get_ids / get_number_of_individuals differ from the walk',
     35: 'get_covariate_baselines differs from the walk',
+    38: 'expand_additional_doses (default flag=False): wrong columns, or not the implied doses / total amount',
     37: 'get_observations(keep_index=True) differs from the walk (labels or values)',
     36: 'expand_additional_doses: the expanded frame is not the multiset of implied doses (TIME + k*II, other fields kept)',
 }
@@ -69,7 +70,7 @@ ORACLE = {
     25: (8, []),
     26: (9, [(208, 'C14-EVID-OTHER-RECORDS')]),
     27: (0, []),
-    32: (8, []), 33: (9, []), 34: (7, []), 35: (7, []), 36: (4, []), 37: (6, []),
+    32: (8, []), 33: (9, []), 34: (7, []), 35: (7, []), 36: (4, []), 37: (6, []), 38: (4, []),
 }
 # input-domain guards (not defects): an oracle failure is also excused when one of these is false
 DOMAIN = {13: [204, 203], 14: [204], 18: [204, 217], 28: [204, 203, 225], 16: [204]}
@@ -569,6 +570,14 @@ def observe(spec):
     add_cmt_t = run('add_cmt', lambda: fns.add_cmt(model), added(fns.add_cmt, 'CMT', 'compartment', 'add_cmt_meta'))
     add_admid_t = run('add_admid', lambda: fns.add_admid(model), added(fns.add_admid, 'ADMID', 'admid', 'add_admid_meta'))
 
+    def conv_noflag(m):
+        d = m.dataset
+        addl_ii = [n for n, t in spec['cols'] if t in ('additional', 'ii')]
+        applies = 'additional' in types and 'ii' in types
+        want = [c for c in df0.columns if not (applies and c in addl_ii)]
+        info['noflag_cols'] = bool(list(d.columns) == want)
+        return ct.lst([t for t, _ in ex.frame_rows(d)])
+    noflag = run('expand_noflag', lambda: expand_additional_doses(model), conv_noflag)
     okeep = get_observations(model, keep_index=True); unchanged()
     obs_keep = ct.lst([ct.pair(ex.z(l), ex.z(v, True)) for l, v in okeep.items()])
 
@@ -577,8 +586,9 @@ def observe(spec):
             + ' ' + ct.boolean(info.get('expand_idint', False)) + '\n  ' + tad + ' ' + ct.boolean(info.get('tad_idint', False))
             + '\n  ' + cmt + '\n  ' + admid + ' ' + ct.boolean(immutable[0])
             + '\n  ' + ids + ' ' + nind + ' ' + covbase + '\n  ' + add_cmt_t + ' ' + ct.boolean(info.get('add_cmt_meta', False))
-            + '\n  ' + add_admid_t + ' ' + ct.boolean(info.get('add_admid_meta', False)) + '\n  ' + obs_keep + ')')
-    info['ncalls'] = 19
+            + '\n  ' + add_admid_t + ' ' + ct.boolean(info.get('add_admid_meta', False)) + '\n  ' + obs_keep
+            + '\n  ' + noflag + ' ' + ct.boolean(info.get('noflag_cols', False)) + ')')
+    info['ncalls'] = 20
     return term, info
 
 
@@ -748,7 +758,7 @@ def run(ctx):
     ctx.coverage['programs'] = len(kept)
     ctx.coverage['rule'] = ('random event datasets (1-6 individuals, 1-7 records each, doses/observations/other/reset '
                             'events with ties, ADDL/II, SS, optional EVID/MDV/CMT/ADMID/RATE/covariate columns, id order '
-                            'ascending/shuffled/non-contiguous, default or explicit index) from VERIF_SEED; 19 derivations '
+                            'ascending/shuffled/non-contiguous, default or explicit index) from VERIF_SEED; 20 derivations '
                             'per dataset; non-trivial = at least two records; distinct by dataset text')
     ctx.coverage['case_status'] = stats
 
